@@ -57,13 +57,15 @@ def leaf(draw, w, cfg):
     if k < 4:
         return draw(ints(w))
     if k < 9 or not cfg.get("mem", True) or w > 128:
-        return draw(ids(w))
+        return draw(cfg["id_leaf"](w) if "id_leaf" in cfg else ids(w))
     return draw(mem(w, 0, cfg))
 
 
 @st.composite
 def mem(draw, w, depth, cfg):
     m = _m()
+    if "mem_leaf" in cfg:
+        return draw(cfg["mem_leaf"](w))
     pw = draw(st.sampled_from(PTR_WIDTHS))
     ptr = draw(free_expr(pw, max(depth - 1, 0), dict(cfg, mem=depth > 1)))
     return m.ExprMem(ptr, w)
@@ -71,7 +73,9 @@ def mem(draw, w, depth, cfg):
 
 @st.composite
 def free_expr(draw, w, depth, cfg=None):
-    """Random expression of width w, depth <= depth."""
+    """Random expression of width w, depth <= depth.
+    Optional cfg hooks (used by vlib.irgen): cfg["id_leaf"](w) -> strategy replacing the a/b/c identifier
+    leaves; cfg["mem_leaf"](w) -> strategy replacing every generated memory read."""
     cfg = cfg or {}
     m = _m()
     if depth <= 0 or draw(st.integers(0, 7)) == 0:
